@@ -156,6 +156,8 @@ class Reference:
         f.resolved = True
         f.value = value
         if f.parked is not None:
+            if f.callbacks:
+                self._stat("resolve_with_waiter_and_combinator")
             self._resume_parked(f)
         cbs, f.callbacks = f.callbacks, []
         for cb in cbs:
